@@ -235,7 +235,7 @@ def build():
     U.raw(C.VALUE_SPECS + C.TRUTHY_SPEC + SPECS, 'spec functions')
     U.raw(OPSPEC, 'operator trait plumbing')
     U.raw(CHRONO, 'assumed chrono / float specs')
-    U.raw(C.STD_SPECS, 'assumed std specs')
+    U.raw(C.STD_SPECS + C.STD_INT_SPECS, 'assumed std specs')
     U.raw(C.AXIOMS, 'axioms')
 
     simple_ctor = lambda body: A(ret='r', ensures=[('def', body)], props=('C01',))
